@@ -23,7 +23,9 @@ MANIFEST = dict(
          "Sampled (not proved): that the C code behaves like the model - checked by exact diff of the "
          "ordered message list and return code on generated rule sets (1-3 namespaces, some with >64 rules/namespaces, 0-3 imports, all four flag settings, "
          "three API entry styles (scanner + set_flags, yr_rules_scan_mem, scanner with default flags), unrelated scan flags mixed in, buffers <= 19 bytes, "
-         "several consecutive scans per scanner over different buffers) with abort/error at every message index k incl. import, imported, first, last and finished messages; "
+         "several consecutive scans per scanner over different buffers and through different calls: yr_scanner_scan_mem, yr_scanner_scan_mem_blocks with a "
+         "one-block iterator with / without a file_size function (filesize undefined), and yr_scanner_scan_proc of a helper process as a step in between) "
+         "with abort/error at every message index k incl. import, imported, first, last and finished messages; "
          "plus, against a library built with -DYR_MAX_STRING_MATCHES=10, rule sets whose strings occur limit-1 / limit / limit+1 / more times (1-3 overflowing strings "
          "per set, mostly with string index != rule index, public and private, used as $s / not $s / #s > N with N around the limit, late-occurring marker strings, "
          "same scanner reused on the same / a below-limit / unrelated buffer) with abort/error at every k incl. each warning.",
@@ -53,8 +55,10 @@ def gen_atom(r, buf, earlier):
         return "F"
     if u < 0.58:
         return "U"
-    if u < 0.75:
+    if u < 0.70:
         return "z%d" % max(0, len(buf) + r.choice([-2, -1, 0, 1]))
+    if u < 0.76:
+        return "y%d" % r.choice([len(buf) + 1, len(buf) + 2, max(1, len(buf) - 1), 100])     # filesize < N
     # string atom: present or absent in the buffer
     if buf and len(buf) >= 2 and r.random() < 0.5:
         l = r.randint(2, min(4, len(buf)))
@@ -153,6 +157,32 @@ def gen_scripts(r, maxmsg, big):
     return ss
 
 
+def scan_kinds(r, scripts, api):
+    """history of different scan calls on one scanner: some scans go through a caller's block iterator without (b:) or
+    with (B:) a file_size function, and a process scan (p) may sit between two scans. The scanner must start every scan
+    from its configured flags and assign the file size anew (undefined without a size function)."""
+    if r.random() < 0.6:
+        return list(scripts)
+    out = []
+    for sc in scripts:
+        u = r.random()
+        out.append(("b:" if u < 0.35 else "B:" if u < 0.45 else "") + sc)
+    if api != "r" or r.random() < 0.3:
+        for _ in range(r.choice([1, 1, 2])):
+            out.insert(r.randint(1, len(out)) if len(out) > 1 and r.random() < 0.8 else 0, "p")
+    return out
+
+
+def script_of(sc):
+    """(kind, answers) of one scripts= entry"""
+    if sc == "p":
+        return "p", ""
+    kind = "m"
+    if sc[:2] in ("b:", "B:"):
+        kind, sc = sc[0], sc[2:]
+    return kind, ("" if sc == "-" else sc)
+
+
 def gen_cases(r, nsets, nbig):
     cases, cid = [], 0
     for s in range(nsets + nbig):
@@ -175,7 +205,8 @@ def gen_cases(r, nsets, nbig):
                     for _ in range(r.randint(1, 2)):
                         bufs.insert(r.randrange(len(bufs) + 1), other_buf(r, buf))
                 x = r.choice([0, 0, 0, 0, 1, 4, 5])      # unrelated scan flags must not disturb the report-flag default
-                cases.append("c%d f=%d x=%d api=%s buf=%s items=%s scripts=%s" % (cid, f, x, api, "/".join(bufs), items, "/".join(sc[o:o + chunk])))
+                line = scan_kinds(r, sc[o:o + chunk], api)
+                cases.append("c%d f=%d x=%d api=%s buf=%s items=%s scripts=%s" % (cid, f, x, api, "/".join(bufs), items, "/".join(line)))
                 cid += 1
     return cases
 
@@ -194,10 +225,17 @@ def classify(case, out, hist):
     items = kv(case, "items").split(";")
     kinds = Counter(i.split(":")[2] for i in items if i.startswith("r:"))
     nontriv = False
+    prev = None
     for sc, tr in zip(scripts, scans):
+        kind, sc = script_of(sc)
+        hist["scan_call:%s" % {"m": "scan_mem", "b": "blocks-without-file_size", "B": "blocks-with-file_size", "p": "scan_proc"}[kind]] += 1
+        if prev is not None:
+            hist["history:%s-then-%s" % (prev, kind)] += 1
+        prev = kind
+        if kind == "p":
+            continue
         toks = tr.split()
         msgs, rc = toks[:-1], toks[-1]
-        sc = "" if sc == "-" else sc
         last = msgs[-1] if msgs else ""
         if last == "FIN":
             end = "completed"
@@ -239,7 +277,7 @@ def static_hist(cases, hist):
         imps = [i.split(":") for i in its if i.startswith("i:")]
         for x in rules:
             hist["rule_kind:" + x[2]] += 1
-            for ch, nm in (("r", "rule-ref"), ("x", "rule-ref"), ("s", "string"), ("n", "string"), ("z", "filesize"), ("T", "const"), ("F", "const")):
+            for ch, nm in (("r", "rule-ref"), ("x", "rule-ref"), ("s", "string"), ("n", "string"), ("z", "filesize"), ("y", "filesize"), ("T", "const"), ("F", "const")):
                 if any(a.startswith(ch) for a in x[3].replace("|", "&").split("&")):
                     hist["cond_atom:" + nm] += 1
         hist["namespaces:%d" % min(len({x[1] for x in rules}), 4)] += 1
@@ -403,8 +441,11 @@ def gen_tm_cases(r, nsets):
         for f in r.sample([0, 1, 2, 3], r.choice([1, 2])):
             api = r.choice("ssssrd") if f == 0 else r.choice("ssssr")
             for o in range(0, len(scripts), 8):
+                line = scripts[o:o + 8]
+                if r.random() < 0.3:          # some scans through a caller's block iterator (filesize undefined without size function)
+                    line = [(r.choice(["b:", "b:", "B:"]) if r.random() < 0.4 else "") + sc for sc in line]
                 cases.append("t%d L=%d f=%d x=%d api=%s buf=%s items=%s scripts=%s" % (
-                    cid, LIMIT, f, r.choice([0, 0, 4]), api, "/".join(hexs(b) for b in bufs), ";".join(items), "/".join(scripts[o:o + 8])))
+                    cid, LIMIT, f, r.choice([0, 0, 4]), api, "/".join(hexs(b) for b in bufs), ";".join(items), "/".join(line)))
                 cid += 1
     return cases
 
@@ -417,13 +458,16 @@ def tm_hist(cases, model, hist):
         o = mm.get(c.split(" ", 1)[0], "")
         scripts = kv(c, "scripts").split("/")
         for sc, tr in zip(scripts, o.split(" ", 1)[1].split(" | ") if " " in o else []):
+            kind, sc = script_of(sc)
+            if kind == "p":
+                continue
             toks = tr.split()
             msgs, rc = toks[:-1], toks[-1]
             ntm = sum(1 for m in msgs if m.startswith("TM:"))
             hist["tm:warnings_in_scan:%d" % ntm] += 1
             if rc == "rc=TOO_MANY_MATCHES":
                 k = len(msgs) - 1
-                sc_ = "" if sc == "-" else sc
+                sc_ = sc
                 hist["tm:halt-on-warning:%s" % ("abort" if k < len(sc_) and sc_[k] == "a" else "error")] += 1
             elif ntm:
                 hist["tm:continued-then:%s" % ("completed" if msgs and msgs[-1] == "FIN" else "stopped-later")] += 1
@@ -538,5 +582,8 @@ def run(tier, replay=None):
                         "callbacks return only CONTINUE/ABORT/ERROR; messages other than the five protocol messages and TOO_MANY_MATCHES do not occur in the generated rule sets",
                         "too-many-matches campaign: hex strings of 1-4 bytes without wildcards, no FAST_MODE, warnings of different strings triggered >= 5 bytes apart, "
                         "the limit is lowered by a compile-time define (the code under test is otherwise the working tree)",
-                        "several scans of one case line reuse one scanner (api=s/d) or one rule set (api=r); the model treats scans as independent"]
+                        "several scans of one case line reuse one scanner (api=s/d) or one rule set (api=r); the model treats scans as independent: "
+                        "every scan starts from the configured flags and gets its own file size (Model scanFileSize: undefined when the iterator has no size function)",
+                        "a process scan (p) is only a step of the history: the helper process' memory is unknown to the model, its messages are not compared; "
+                        "if the sandbox refused attaching, that step would be a no-op (no alarm, less coverage)"]
     return chk.finish("proof")
